@@ -166,6 +166,8 @@ func c09Dur(ms int) time.Duration {
 type c09Job struct {
 	starts, fins int32
 	gate         chan struct{}
+	done         chan struct{} // closed when the job has finished once
+	doneOnce     sync.Once
 }
 
 type c09Env struct {
@@ -188,10 +190,43 @@ type c09Env struct {
 	toks   []string
 	expMs  int
 	slowMs int32
+	dmu    sync.Mutex
+	dones  map[int]chan struct{} // by job name; may be asked for before the job exists
+	hwait  int32                 // -1, or the name of the job the panic handler waits for
+	hcall  int32                 // 0, or the n of the PreAllocWorkerSize(n) the panic handler calls
+	stuck  bool                  // VerifCounts did not return: the pool's lock is held for good
+}
+
+func (e *c09Env) doneOf(k int) chan struct{} {
+	e.dmu.Lock()
+	defer e.dmu.Unlock()
+	ch := e.dones[k]
+	if ch == nil {
+		ch = make(chan struct{})
+		e.dones[k] = ch
+	}
+	return ch
+}
+
+// counts is VerifCounts with a bound: a pool whose lock is never released answers -1/-1 instead of hanging the case
+func (e *c09Env) counts() (int, int) {
+	if e.stuck {
+		return -1, -1
+	}
+	ch := make(chan [2]int, 1)
+	go func() { a, b := e.pool.VerifCounts(); ch <- [2]int{a, b} }()
+	select {
+	case r := <-ch:
+		return r[0], r[1]
+	case <-time.After(2 * time.Second):
+		e.stuck = true
+		e.diverged = true
+		return -1, -1
+	}
 }
 
 func c09NewEnv(toks []string, expMs int) *c09Env {
-	e := &c09Env{ctl: newC09Ctl(), max: c09Cfg(toks, "max", 1), async: map[int]chan string{}, byName: map[int]*c09Job{}}
+	e := &c09Env{ctl: newC09Ctl(), max: c09Cfg(toks, "max", 1), async: map[int]chan string{}, byName: map[int]*c09Job{}, dones: map[int]chan struct{}{}, hwait: -1}
 	e.q = fpgo.NewBufferedChannelQueue[func()](c09Cfg(toks, "c", 1), c09Cfg(toks, "b", 0), 16).
 		SetLoadFromPoolDuration(time.Millisecond / 2)
 	e.toks, e.expMs = toks, expMs
@@ -207,6 +242,13 @@ func c09NewEnv(toks []string, expMs int) *c09Env {
 func (e *c09Env) recorder(p interface{}) {
 	if ms := atomic.LoadInt32(&e.slowMs); ms > 0 {
 		time.Sleep(time.Duration(ms) * time.Millisecond)
+	}
+	if k := atomic.LoadInt32(&e.hwait); k >= 0 {
+		<-e.doneOf(int(k)) // a handler that reports only after another job has got through
+	}
+	if n := atomic.LoadInt32(&e.hcall); n > 0 {
+		e.pool.VerifCounts() // a handler that looks at the pool and tops it up
+		e.pool.PreAllocWorkerSize(int(n))
 	}
 	if v, ok := p.(int); ok {
 		e.hmu.Lock()
@@ -240,6 +282,11 @@ func (e *c09Env) raiseMaximum() {
 // job k of the given kind; slowUs > 0 makes it sleep
 func (e *c09Env) mkJob(k int, kind string, slowUs int) func() {
 	j := &c09Job{gate: make(chan struct{})}
+	if _, dup := e.byName[k]; !dup {
+		j.done = e.doneOf(k)
+	} else {
+		j.done = make(chan struct{})
+	}
 	idx := len(e.jobs) // the model identifies a job with its creation index
 	e.jobs = append(e.jobs, j)
 	if _, dup := e.byName[k]; !dup {
@@ -258,6 +305,7 @@ func (e *c09Env) mkJob(k int, kind string, slowUs int) func() {
 			atomic.AddInt32(&e.cur, -1)
 			atomic.AddInt32(&j.fins, 1)
 			atomic.AddInt32(&e.finTot, 1)
+			j.doneOnce.Do(func() { close(j.done) })
 		}()
 		if slowUs > 0 {
 			time.Sleep(time.Duration(slowUs) * time.Microsecond)
@@ -277,7 +325,7 @@ func (e *c09Env) mkJob(k int, kind string, slowUs int) func() {
 }
 
 func (e *c09Env) state() string {
-	wc, wb := e.pool.VerifCounts()
+	wc, wb := e.counts()
 	var runs strings.Builder
 	for _, j := range e.jobs {
 		s := atomic.LoadInt32(&j.starts)
@@ -307,7 +355,11 @@ func (e *c09Env) state() string {
 
 // c09SpawnIdle reports whether every spawn loop in the process is blocked waiting for a token (or held at a
 // park point): then no token is buffered either, i.e. everything posted so far has been acted upon.
-func c09SpawnIdle() bool {
+// goroutines of finished cases that never went away (a spawn loop waiting for a token for ever, a worker stuck on
+// a lock that is never released): they say nothing about the pool of the current case
+var c09Zombies = map[string]bool{}
+
+func c09Dump() []string {
 	buf := make([]byte, 1<<20)
 	for {
 		n := runtime.Stack(buf, true)
@@ -317,7 +369,34 @@ func c09SpawnIdle() bool {
 		}
 		buf = make([]byte, 2*len(buf))
 	}
-	for _, g := range strings.Split(string(buf), "\n\n") {
+	return strings.Split(string(buf), "\n\n")
+}
+
+func c09IsPoolG(g string) bool {
+	return strings.Contains(g, ").spawnLoop(") || strings.Contains(g, "fpGo/v2/worker.(*DefaultWorkerPool)") ||
+		strings.Contains(g, "fpGo/v2.(*BufferedChannelQueue")
+}
+
+func c09Gid(g string) string {
+	if i := strings.Index(g, " ["); i > 0 {
+		return g[:i]
+	}
+	return g
+}
+
+func c09MarkZombies() {
+	for _, g := range c09Dump() {
+		if c09IsPoolG(g) {
+			c09Zombies[c09Gid(g)] = true
+		}
+	}
+}
+
+func c09SpawnIdle() bool {
+	for _, g := range c09Dump() {
+		if c09Zombies[c09Gid(g)] {
+			continue
+		}
 		head := g
 		if i := strings.IndexByte(g, '\n'); i >= 0 {
 			head = g[:i]
@@ -351,7 +430,7 @@ func (e *c09Env) bound() time.Duration {
 func (e *c09Env) until(cond func() bool) bool {
 	deadline := time.Now().Add(e.bound())
 	sig := func() string {
-		wc, wb := e.pool.VerifCounts()
+		wc, wb := e.counts()
 		e.ctl.mu.Lock()
 		a, p := 0, 0
 		for _, n := range e.ctl.arrived {
@@ -425,8 +504,22 @@ func (e *c09Env) cleanup() {
 	if !e.q.IsClosed() {
 		e.q.Close()
 	}
-	c09Until(time.Second, func() bool { wc, _ := e.pool.VerifCounts(); return wc == 0 })
+	e.dmu.Lock()
+	for k, ch := range e.dones { // a handler still waiting for a job is let go
+		select {
+		case <-ch:
+		default:
+			if j := e.byName[k]; j != nil {
+				j.doneOnce.Do(func() { close(ch) })
+			} else {
+				close(ch)
+			}
+		}
+	}
+	e.dmu.Unlock()
+	c09Until(time.Second, func() bool { wc, _ := e.counts(); return wc == 0 })
 	e.ctl.uninstall()
+	c09MarkZombies()
 }
 
 func (e *c09Env) op(tok string) string {
@@ -518,7 +611,7 @@ func (e *c09Env) op(tok string) string {
 		hb, _ := strconv.Atoi(h[1])
 		hf, _ := strconv.Atoi(h[2])
 		e.until(func() bool {
-			wc, wb := e.pool.VerifCounts()
+			wc, wb := e.counts()
 			return wc == hc && wb == hb && int(atomic.LoadInt32(&e.finTot)) == hf && c09SpawnIdle()
 		})
 		time.Sleep(15 * time.Millisecond)
@@ -560,6 +653,12 @@ func (e *c09Env) op(tok string) string {
 		e.pool.PreAllocWorkerSize(num(1))
 		e.settle()
 		return "pre"
+	case "hg":
+		atomic.StoreInt32(&e.hwait, int32(num(1)))
+		return "hg"
+	case "hc":
+		atomic.StoreInt32(&e.hcall, int32(num(1)))
+		return "hc"
 	case "sy":
 		// let the pool come to rest (spawn loop waiting, workers in their select / gates / park points)
 		time.Sleep(2 * time.Millisecond)
@@ -820,7 +919,131 @@ func c09RunStress(line string) string {
 	return fmt.Sprintf("ok acc=%d ran=%d han=%d closed=ok", acc, ran, nh)
 }
 
+// ---- two pools alive at once
+//
+// twopool mode=nil|shared maxA=<a> maxB=<b> n=<n>: pool A (a workers) and pool B (b workers) are built either with nil
+// settings or from one shared settings struct and configured through their own setters, B after A.  Then A gets n
+// gated jobs (at most a may run at once) and a panicking job (A's handler, not B's), B gets a panicking job, and a
+// third pool built with nil settings and no setter must still have the documented defaults (5 standby workers).
+func c09RunTwoPool(line string) string {
+	toks := strings.Fields(line)
+	maxA, maxB, n := c09Cfg(toks, "maxA", 2), c09Cfg(toks, "maxB", 6), c09Cfg(toks, "n", 6)
+	shared := false
+	for _, t := range toks {
+		if t == "mode=shared" {
+			shared = true
+		}
+	}
+	ctl := newC09Ctl()
+	defer func() { ctl.uninstall(); c09MarkZombies() }()
+	var viols []string
+	var st *worker.DefaultWorkerPoolSettings
+	if shared {
+		st = &worker.DefaultWorkerPoolSettings{}
+	}
+	var hanA, hanB, strayA, strayB int32
+	mk := func(max int, own, other *int32, tag int) (*worker.DefaultWorkerPool, *fpgo.BufferedChannelQueue[func()]) {
+		q := fpgo.NewBufferedChannelQueue[func()](16, 0, 16)
+		p := worker.NewDefaultWorkerPool(q, st)
+		// the maximum first: with nil settings the defaults (standby 5, maximum 1000) are in force until then
+		p.SetWorkerSizeMaximum(max).SetWorkerSizeStandBy(max).SetWorkerBatchSize(0).
+			SetSpawnWorkerDuration(time.Millisecond).SetWorkerJamDuration(time.Hour).SetWorkerExpiryDuration(time.Hour).
+			SetIsJobQueueClosedWhenClose(true)
+		p.SetPanicHandler(func(v interface{}) {
+			if x, ok := v.(int); ok && x == tag {
+				atomic.AddInt32(own, 1)
+			} else {
+				atomic.AddInt32(other, 1)
+			}
+		})
+		return p, q
+	}
+	poolA, qA := mk(maxA, &hanA, &strayA, 1)
+	c09Until(c09Wait, func() bool { wc, _ := poolA.VerifCounts(); return wc == maxA && c09SpawnIdle() })
+	poolB, qB := mk(maxB, &hanB, &strayB, 2)
+	c09Until(c09Wait, func() bool { wc, _ := poolB.VerifCounts(); return wc == maxB && c09SpawnIdle() })
+	defer func() {
+		poolA.Close()
+		poolB.Close()
+		for _, q := range []*fpgo.BufferedChannelQueue[func()]{qA, qB} {
+			if !q.IsClosed() {
+				q.Close()
+			}
+		}
+		c09Until(time.Second, func() bool { a, _ := poolA.VerifCounts(); b, _ := poolB.VerifCounts(); return a+b == 0 })
+	}()
+	// A again: n gated jobs
+	var cur, peak, fin int32
+	gate := make(chan struct{})
+	for k := 0; k < n; k++ {
+		if err := poolA.Schedule(func() {
+			c := atomic.AddInt32(&cur, 1)
+			for {
+				p := atomic.LoadInt32(&peak)
+				if c <= p || atomic.CompareAndSwapInt32(&peak, p, c) {
+					break
+				}
+			}
+			<-gate
+			atomic.AddInt32(&cur, -1)
+			atomic.AddInt32(&fin, 1)
+		}); err != nil {
+			viols = append(viols, "A-answer-"+c09Err(err))
+		}
+	}
+	want := n
+	if maxA < want {
+		want = maxA
+	}
+	c09Until(c09Wait, func() bool { return int(atomic.LoadInt32(&cur)) >= want && c09SpawnIdle() })
+	time.Sleep(20 * time.Millisecond)
+	gauge := int(atomic.LoadInt32(&peak))
+	if wc, _ := poolA.VerifCounts(); wc > maxA {
+		viols = append(viols, fmt.Sprintf("A-workerCount=%d>max=%d", wc, maxA))
+	}
+	close(gate)
+	c09Until(c09Wait, func() bool { return int(atomic.LoadInt32(&fin)) == n })
+	if g := int(atomic.LoadInt32(&peak)); g > gauge {
+		gauge = g
+	}
+	if gauge > maxA {
+		viols = append(viols, fmt.Sprintf("A-gauge=%d>max=%d", gauge, maxA))
+	}
+	poolA.Schedule(func() { atomic.AddInt32(&fin, 1); panic(1) })
+	poolB.Schedule(func() { panic(2) })
+	c09Until(c09Wait, func() bool {
+		return atomic.LoadInt32(&hanA)+atomic.LoadInt32(&strayA)+atomic.LoadInt32(&hanB)+atomic.LoadInt32(&strayB) >= 2
+	})
+	time.Sleep(5 * time.Millisecond)
+	if atomic.LoadInt32(&strayA) > 0 {
+		viols = append(viols, "B-panic-reported-to-A-handler")
+	}
+	if atomic.LoadInt32(&strayB) > 0 {
+		viols = append(viols, "A-panic-reported-to-B-handler")
+	}
+	// a third pool, untouched: the documented defaults
+	qC := fpgo.NewBufferedChannelQueue[func()](16, 0, 16)
+	poolC := worker.NewDefaultWorkerPool(qC, nil)
+	var ranC int32
+	poolC.Schedule(func() { atomic.AddInt32(&ranC, 1) })
+	c09Until(c09Wait, func() bool { wc, _ := poolC.VerifCounts(); return atomic.LoadInt32(&ranC) == 1 && wc >= 5 && c09SpawnIdle() })
+	time.Sleep(10 * time.Millisecond)
+	countC, _ := poolC.VerifCounts()
+	poolC.Close()
+	c09Until(time.Second, func() bool { wc, _ := poolC.VerifCounts(); return wc == 0 })
+	if countC != 5 {
+		viols = append(viols, fmt.Sprintf("default-pool-workerCount=%d-want-5", countC))
+	}
+	if len(viols) > 0 {
+		return "viol " + strings.Join(viols, " ")
+	}
+	return fmt.Sprintf("ok gaugeA=%d ranA=%d hanA=%d hanB=%d countC=%d", gauge, atomic.LoadInt32(&fin), atomic.LoadInt32(&hanA), atomic.LoadInt32(&hanB), countC)
+}
+
 func c09Run(line string) string {
+	if strings.HasPrefix(line, "twopool ") {
+		return c09RunTwoPool(line[8:])
+	}
 	if strings.HasPrefix(line, "sched ") {
 		return c09RunSched(line[6:])
 	}
@@ -887,6 +1110,13 @@ func c09Gen(tier string, rng *rand.Rand, emit func(string)) map[string]interface
 		"exp:0", "s:2:g", "s:3:g", "s:4:g", "w:2/2/2", "rel:expiry", "sy", "w:2/2/2", "r:2", "r:3", "r:4", "w:2/0/5")
 	sched("max=1 sb=0 batch=1 c=4 b=0", "s:0:g", "w:1/1/0", "exp:30", "park:expiry:1", "r:0", "expire:1", "w:0/0/1", "exp:0", "s:1:g", "w:1/1/1", "s:2:g",
 		"rel:expiry", "sy", "w:1/1/1", "r:1", "r:2", "w:1/0/3")
+
+	// a panic handler that blocks until a later job has got through, and one that calls back into the pool: the
+	// handler runs outside every critical section, so neither may keep later accepted jobs from running
+	sched("max=2 sb=2 batch=0 c=4 b=0", "hg:2", fmt.Sprintf("s:0:p%d", v()), "s:1:g", "w:2/2/0", "r:0", "sy", "s:2:f", "r:1", "w:2/0/3")
+	sched("max=2 sb=2 batch=0 c=4 b=0", "hg:3", "s:0:g", "s:1:q4", "sy", "s:2:f", "s:3:f", "r:0", "w:2/0/4")
+	sched("max=2 sb=1 batch=0 c=4 b=0", "hc:2", fmt.Sprintf("s:0:q%d", v()), "s:1:f", "w:1/0/2", "s:2:g", "w:1/1/2", "r:2", "w:1/0/3")
+	sched("max=3 sb=3 batch=0 c=4 b=0", "hc:3", "s:0:g", "s:1:q6", "s:2:f", "w:3/1/2", "r:0", "w:3/0/3")
 
 	// (2) expiry race: idle workers above standby expire together while a job is being accepted
 	sched("max=2 sb=1 batch=0 c=2 b=0", "pre:2", "exp:30", "s:0:g", "s:1:g", "w:2/2/0", "park:expiry:1", "r:0", "r:1", "expire:1",
@@ -997,6 +1227,12 @@ func c09Gen(tier string, rng *rand.Rand, emit func(string)) map[string]interface
 		ops = append(ops, fmt.Sprintf("w:%d/0/%d", mx, k))
 		sched(fmt.Sprintf("max=%d sb=%d batch=0 c=%d b=0", mx, mx, c), ops...)
 	}
+
+	// two pools alive at once, configured through their own setters; a third pool left at the defaults
+	emit("twopool mode=nil maxA=2 maxB=6 n=6")
+	emit("twopool mode=shared maxA=2 maxB=5 n=5")
+	emit("twopool mode=nil maxA=3 maxB=1 n=7")
+	nd += 3
 
 	// (9) stress
 	stress := func(format string, a ...interface{}) { emit("stress " + fmt.Sprintf(format, a...)); ns++ }
